@@ -17,7 +17,7 @@ ASSUMPTIONS = ["inputs on which a function raises are skipped here (never-raises
 def hier(st, skel, n, flag):
     name, pre, post = SKELETONS[skel]
     # right after a '%' the interesting fillers are hex digits: restrict the hole to them (stated in BOUNDS)
-    u = cat(pre, sym_str(st, "s", n, HEXDOM if name.startswith("path-escape") else None), post)
+    u = cat(pre, sym_str(st, "s", n, HEXDOM if name.startswith(("path-escape", "fragment-escape")) else None), post)
     run_prop(st, "normalize_after_canonicalize", S.normalize_after_canonicalize, u, flag, False)
     run_prop(st, "fingerprint_after_canonicalize", S.fingerprint_after_canonicalize, u, flag, False)
     run_prop(st, "fingerprint_after_normalize", S.fingerprint_after_normalize, u, flag, False)
@@ -35,7 +35,7 @@ def qorder(st, k1, k2, flag):
 QORDER_QUICK = ()
 QORDER_ALL = (("%C3e", "c"), ("E", "c"), ("c", "E"), ("c", "c"))
 
-N2 = ("path-escape-index", "path-escape-amp", "query-escape", "redirect", "no-scheme-port")
+N2 = ("path-escape-index", "path-escape-amp", "query-escape", "redirect", "no-scheme-port", "fragment-escape", "no-scheme-redirect")
 
 
 def items(tier):
